@@ -21,6 +21,8 @@ Run-time contracts of apischema.serialize followed by apischema.deserialize (and
                        bytes, Path & co, ip addresses / interfaces / networks, re.Pattern, deque),
                        alone and inside Optional / List / Dict values and keys / Tuple / dataclass
                        field / deque, over hand-made boundary values and seeded random ones.
+* `roundtrip_fields_set`: (E) a with_fields_set dataclass with default_as_set fields: d itself plus the
+                       default_as_set fields; values and their set-field sets survive the round trip.
 """
 from __future__ import annotations
 
@@ -200,6 +202,23 @@ class SetOf:
         return f"SetOf({self.xs!r})"
 
 
+def plainify(x):
+    """one JSON datum out of a completed datum (first alternative, set positions as arrays)"""
+    if isinstance(x, AnyOf):
+        return plainify(x.alts[0])
+    if isinstance(x, SetOf):
+        out = []
+        for y in map(plainify, x.xs):
+            if not any(_key(y) == _key(z) for z in out):
+                out.append(y)
+        return out
+    if type(x) is list:
+        return [plainify(y) for y in x]
+    if type(x) is dict:
+        return {k: plainify(v) for k, v in x.items()}
+    return x
+
+
 def json_eq(exp, got) -> bool:
     """got (real JSON data) equals the completed datum: same JSON classes (an int is not a float),
     arrays at set positions as sets"""
@@ -308,6 +327,7 @@ def run(report, tier: str, seed: int):
     try:
         run_pool(report, tier, seed, realm)
         run_std(report, tier, seed, realm)
+        run_fields_set(report, tier, seed, realm)
     finally:
         realm.dispose()
 
@@ -326,12 +346,15 @@ def run_pool(report, tier: str, seed: int, realm):
     logv.rule("case = (type, aliaser, additional_properties, value); v is the reference image of an accepted datum (distinct values by repr); non-trivial when the value is a container / object or the type is not a bare primitive")
     logd = report.driver(
         "roundtrip_data",
-        bound=f"same {len(pool)} types x aliasers x additional_properties x every datum of the datum pools accepted by the reference semantics (valid samples, boundary mutants, atoms, seeded random values)",
+        bound=f"same {len(pool)} types x aliasers x additional_properties x every datum of the (thorough-size) datum pools accepted by the reference semantics (valid samples, <= 80 boundary mutants of each of <= 8 samples, atoms, 40 seeded random values)",
     )
     logd.rule("case = (type, aliaser, additional_properties, accepted datum d): serialize(T, deserialize(T, d)) == d completed with defaults (computed from the description) and deserializes again to an equal value; non-trivial when d is a dict / list")
+    skipped: Dict[str, int] = {}
+    report.extra["C05_outside_fragment"] = skipped
     for td in pool:
         why = bijective(td, realm)
         if why:
+            skipped[why] = skipped.get(why, 0) + 1
             continue
         try:
             tp = M.realize(td, realm)
@@ -367,7 +390,7 @@ def run_pool(report, tier: str, seed: int, realm):
                     continue
                 comp = Completer(realm, mopts)
                 seen_values = set()
-                for d in (ext_samples(td) if aliaser is None else []) + P.data_pool(td, tier, rng):
+                for d in (ext_samples(td) if aliaser is None else []) + P.data_pool(td, "thorough", rng):
                     exp = ext_ref_deserialize(td, copy.deepcopy(d), realm, mopts)
                     if exp[0] != "ok":
                         continue
@@ -375,6 +398,18 @@ def run_pool(report, tier: str, seed: int, realm):
                     # ---- dual direction: data -> value -> data
                     nontrivial = isinstance(d, (list, dict))
                     logd.case((short(td), optname, repr(d), str(P._typesig(d))), nontrivial, sample={"type": short(td), "options": optname, "datum": d} if nontrivial else None)
+                    # spec-level injectivity (unions with overlapping alternatives are not bijective): the
+                    # reference image of `d completed with defaults` must be v again, else the case is
+                    # outside the fragment
+                    try:
+                        want0 = comp.complete(td, copy.deepcopy(d))
+                        back = ext_ref_deserialize(td, plainify(want0), realm, mopts)
+                        injective = back[0] == "ok" and E.image_ok(td, denan(back[1]), denan(v), ExtRef(realm, mopts), plainify(want0))
+                    except M.Rejected:
+                        injective = True
+                    if not injective:
+                        skipped["ambiguous union value"] = skipped.get("ambiguous union value", 0) + 1
+                        continue
                     before = copy.deepcopy(d)
                     r = call(des, d)  # the caller's own datum: it is compared with the output below
                     if not E.deep_eq(before, d):
@@ -599,3 +634,76 @@ def run_std(report, tier: str, seed: int, realm):
             r2 = call(deserialize, t, s[1]) if s[0] == "ok" else s
             if r2[0] != "ok" or not typed_eq(r2[1], r[1]):
                 fail("dual-redeserialize", tname, repr(d), f"deserialize(T, serialize(T, deserialize(T, d))) = {rs(r2[1], 200)} differs from deserialize(T, d) = {rs(r[1], 200)}", observed=r2, expected=r)
+
+
+# ---------------------------------------------------------------------------------------------
+# unset tracking with default_as_set (hand-written classes: model.py has no default_as_set)
+
+
+def run_fields_set(report, tier: str, seed: int, realm):
+    from apischema import deserialize, serialize
+    from apischema.fields import fields_set, with_fields_set
+    from apischema.metadata import default_as_set
+
+    @with_fields_set
+    @dataclasses.dataclass
+    class Tracked:
+        a: int
+        b: str = "x"
+        c: typing.Optional[int] = dataclasses.field(default=None, metadata=default_as_set)
+        d: typing.List[int] = dataclasses.field(default_factory=list)
+        e_f: float = dataclasses.field(default=0.5, metadata=default_as_set)
+
+    @dataclasses.dataclass
+    class TrackedHolder:
+        t: Tracked
+        ts: typing.List[Tracked] = dataclasses.field(default_factory=list)
+        n: int = 0
+
+    for cls in (Tracked, TrackedHolder):
+        cls.__module__ = realm.name
+        cls.__qualname__ = cls.__name__
+        setattr(realm.module, cls.__name__, cls)
+    log = report.driver("roundtrip_fields_set", bound="a with_fields_set dataclass with 4 defaulted fields (2 of them default_as_set) and a holder class x all 16 subsets of the optional keys x aliaser in {identity, camelCase}; values built through the constructor with the same 16 subsets", label="E")
+    log.rule("case = (class, aliaser, subset of keys): serialize(T, deserialize(T, d)) == d plus the default_as_set fields (and nothing else); the value and its set of set fields survive deserialize(serialize(v)); all subsets of the 4 optional keys are enumerated")
+    import itertools
+
+    optional = {"b": "y", "c": 3, "d": [1, 2], "e_f": 1.5}
+    for aname, aliaser in (("identity", None), ("camelCase", E.camel)):
+        al = aliaser or (lambda s: s)
+        kw = {"aliaser": aliaser} if aliaser else {}
+        for r in range(len(optional) + 1):
+            for keys in itertools.combinations(optional, r):
+                d = {al("a"): 1, **{al(k): copy.deepcopy(optional[k]) for k in keys}}
+                want = dict(d)
+                want.setdefault(al("c"), None)
+                want.setdefault(al("e_f"), 0.5)
+                log.case(("Tracked", aname, keys), True, sample={"type": "Tracked", "aliaser": aname, "datum": d})
+
+                def fail(kind, what, summary, observed=None, expected=None):
+                    log.fail(f"{kind}:Tracked:aliaser={aname}:{what}", f"{kind}: Tracked [{aname}] {what}: {summary}", {"type": "Tracked", "aliaser": aname, "input": what}, observed=rs(observed), expected=rs(expected), functions_involved=["ser.ObjectMethod", "ComplexField", "ObjectMethod"])
+
+                v = call(deserialize, Tracked, copy.deepcopy(d), **kw)
+                if v[0] != "ok":
+                    fail("dual-rejected", repr(d), f"valid datum rejected: {rs(v[1], 200)}", v)
+                    continue
+                s = call(serialize, Tracked, v[1], **kw)
+                if s[0] != "ok" or not json_eq(want, s[1]):
+                    fail("dual-data", repr(d), f"serialize(T, deserialize(T, d)) = {rs(s[1], 200)}, expected d plus the default_as_set fields {want!r}", s, want)
+                    continue
+                v2 = call(deserialize, Tracked, json.loads(json.dumps(s[1])), **kw)
+                if v2[0] != "ok" or v2[1] != v[1] or fields_set(v2[1]) != fields_set(v[1]):
+                    fail("dual-redeserialize", repr(d), f"re-deserialization gives {rs(v2[1], 200)} with set fields {sorted(fields_set(v2[1])) if v2[0] == 'ok' else None}, expected {rs(v[1], 200)} with {sorted(fields_set(v[1]))}", v2, v)
+                # forward, value built by the constructor
+                val = Tracked(1, **{k: copy.deepcopy(optional[k]) for k in keys})
+                hold = TrackedHolder(val, [val, Tracked(2)], 5)
+                for tp, x in ((Tracked, val), (TrackedHolder, hold)):
+                    s = call(serialize, tp, x, **kw)
+                    r2 = call(deserialize, tp, json.loads(json.dumps(s[1])), **kw) if s[0] == "ok" else s
+                    ok = r2[0] == "ok" and r2[1] == x
+                    if ok:
+                        pairs = [(r2[1], x)] if tp is Tracked else [(r2[1].t, x.t)] + list(zip(r2[1].ts, x.ts))
+                        ok = all(fields_set(p) == fields_set(q) for p, q in pairs)
+                    if not ok:
+                        fail("roundtrip-value", f"{tp.__name__}:{x!r}", f"deserialize(T, serialize(T, v)) = {rs(r2[1], 200)} (data {rs(s[1], 200)}) differs from v or from its set fields", r2, x)
+    log.exhaustive()
